@@ -722,16 +722,18 @@ fn c04_unverified_put() {
         settle_labelled(&mut w);
     }
     let shape = choice(5);
+    // record kind of the two boundary-size shapes: paid kinds take another branch of put ("always processed")
+    let tag: u8 = if shape == 1 || shape == 2 { [0u8, 1, 4, 5, 7][choice(5)] } else { 1 };
     let rec = match shape {
         0 => chunk_record(&k, 1),                                             // well formed, small
-        1 => Record { key: k.clone(), value: vec![0x91, 0x01, 0xc4, 35].into_iter().chain(std::iter::repeat(7u8).take(35)).collect(), publisher: None, expires: None }, // 39 bytes: just below the limit
-        2 => Record { key: k.clone(), value: vec![0x91, 0x01, 0xc4, 36].into_iter().chain(std::iter::repeat(7u8).take(36)).collect(), publisher: None, expires: None }, // 40 bytes: at the limit
+        1 => Record { key: k.clone(), value: vec![0x91, tag, 0xc4, 35].into_iter().chain(std::iter::repeat(7u8).take(35)).collect(), publisher: None, expires: None }, // 39 bytes: just below the limit
+        2 => Record { key: k.clone(), value: vec![0x91, tag, 0xc4, 36].into_iter().chain(std::iter::repeat(7u8).take(36)).collect(), publisher: None, expires: None }, // 40 bytes: at the limit
         3 => Record { key: k.clone(), value: vec![0xff, 0x00], publisher: None, expires: None },                // unparseable header
         _ => Record { key: k.clone(), value: vec![], publisher: None, expires: None },                          // empty
     };
     let len = rec.value.len();
     let before = w.driver.store().get(&k).map(|c| c.into_owned().value);
-    note(format!("held={held} shape={shape} len={len}"));
+    note(format!("held={held} shape={shape} kind_tag={tag} len={len}"));
     let r = w.driver.store().put(rec.clone());
     settle_labelled(&mut w);
     let mut forwarded = 0;
